@@ -330,6 +330,34 @@ func newR(c *Case, opts ROpts, db *TDB, done func()) *REnv {
 	return &REnv{db, evm, done}
 }
 
+// Call runs the case's entry point on the reference EVM without collecting state.
+func (e *REnv) Call(c *Case) (ret []byte, created common.Address, gas uint64, err error, panicked string) {
+	defer func() {
+		if r := recover(); r != nil {
+			panicked = fmt.Sprint(r)
+		}
+	}()
+	from := rvm.AccountRef(c.From)
+	switch c.Entry {
+	case "call":
+		ret, gas, err = e.EVM.Call(from, c.To, c.Input, c.Gas, c.ValueBig())
+	case "callcode":
+		ret, gas, err = e.EVM.CallCode(from, c.To, c.Input, c.Gas, c.ValueBig())
+	case "delegatecall":
+		parent := rvm.NewContract(rvm.AccountRef(Origin), from, c.ValueBig(), c.Gas)
+		ret, gas, err = e.EVM.DelegateCall(parent, c.To, c.Input, c.Gas)
+	case "staticcall":
+		ret, gas, err = e.EVM.StaticCall(from, c.To, c.Input, c.Gas)
+	case "create":
+		ret, created, gas, err = e.EVM.Create(from, c.Input, c.Gas, c.ValueBig())
+	case "create2":
+		ret, created, gas, err = e.EVM.Create2(from, c.Input, c.Gas, c.ValueBig(), uint256.NewInt(c.Salt))
+	default:
+		panic("bad entry " + c.Entry)
+	}
+	return
+}
+
 // Invoke runs the case's entry point on the reference EVM.
 func (e *REnv) Invoke(c *Case) (o *Obs) {
 	o = &Obs{}
